@@ -113,7 +113,12 @@ def resolve1(x: object, default: object = None) -> Any:
     If this is an array or dictionary, it may still contains
     some indirect objects inside.
     """
+    seen = set()
     while isinstance(x, PDFObjRef):
+        if x.objid in seen:
+            # a chain of references that leads back to itself has no value
+            return default
+        seen.add(x.objid)
         x = x.resolve(default=default)
     return x
 
@@ -124,8 +129,7 @@ def resolve_all(x: object, default: object = None) -> Any:
     Make sure there is no indirect reference within the nested object.
     This procedure might be slow.
     """
-    while isinstance(x, PDFObjRef):
-        x = x.resolve(default=default)
+    x = resolve1(x, default=default)
     if isinstance(x, list):
         x = [resolve_all(v, default=default) for v in x]
     elif isinstance(x, dict):
